@@ -222,6 +222,73 @@ def nonce_leg(run, binary, sessions, bump):
         seen[(si, got)] = (d, i)
 
 
+
+def final_message_leg(run, binary):
+    """The doer's last message goes through shutdown_with_final_message_sent_after_threads_joined with the
+    counter the sending thread returns: it must carry the next nonce of its direction."""
+    rng = run.rng
+    for d in (0, 1):
+        key = bytes(rng.randrange(256) for _ in range(16)).hex()
+        n = rng.randrange(1, 6)
+        specs = ['z:%d:%d:1' % (10 + i, rng.randrange(0, 200)) for i in range(n)] + ['z:99:7:2']
+        out = vlib.harness(binary, 'frames', ['F %s %d %d %s' % (key, d, n, ' '.join(specs))])
+        frames = fl.split_frames(fl.unhx(fl.kv(out[0])['wire']))
+        got = [l.split()[1] for l in vlib.harness(binary, 'frames', ['N %s %d %s' % (key, 2 * n + 8, fl.hx(f[8:])) for f in frames])]
+        want = [str(d + 2 * i) for i in range(n + 1)]
+        run.count('final-message-session')
+        run.case(('final', key, d, n), True, sample={'case': {'leg': 'final-message', 'dir': d, 'messages': n + 1}, 'impl': 'counters=' + ','.join(got)})
+        run.traces_validated += 1
+        if len(frames) != n + 1:
+            run.broke('correspondence', 'final-message', 'expected %d frames, captured %d' % (n + 1, len(frames)))
+        elif got != want:
+            run.fail('C10 nonce reuse: the frames of a sending thread followed by the final message sent after the threads were joined '
+                     'carry counters %r, the property needs %r' % (got, want), {'leg': 'final-message', 'key': key, 'dir': d, 'specs': specs, 'counters': got})
+
+
+def big_leg(run, binary):
+    """thorough: histories with the largest messages (4 MiB chunk messages, the largest the buffer takes); real code + oracle only."""
+    rng = run.rng
+    b = fl.BUF
+    # the edges of the sender's buffer, as Model/Frame.v send_step states them (plaintext p, ciphertext p + 16):
+    #   p <= b - 24 ok; b - 24 < p <= b - 8: the tag does not fit -> panic; p > b - 8: serialization error
+    edges = [(b - 24, 'ok'), (b - 23, 'panic-oversize'), (b - 8, 'panic-oversize'), (b - 7, 'serialize')]
+    key = bytes(rng.randrange(256) for _ in range(16)).hex()
+    out = vlib.harness(binary, 'frames', ['S %s 0 0 1 z:1:%d:3' % (key, p - 12) for p, _ in edges], timeout=900)
+    for (p, want), l in zip(edges, out):
+        got = fl.kv(l)['end']
+        run.count('send-edge:' + got); run.traces_validated += 1
+        run.case(('send-edge', p), True)
+        if got != want:
+            run.broke('correspondence', 'send-edges', 'plaintext of %d bytes: real send ends %s, the model says %s' % (p, got, want))
+    hist = [('m', 1, 4 * 1024 * 1024 + 17, 1), ('m', 2, b - 24 - 12, 2), ('m', 3, 1 << 20, 3), ('m', 4, 0, 0)]
+    real = 'S %s 0 0 %d %s' % (key, len(hist), ' '.join(fl.spec_of(m) for m in hist))
+    r = fl.kv(vlib.harness(binary, 'frames', [real], timeout=900)[0])
+    frames = fl.split_frames(fl.unhx(r['wire']))
+    other = [struct.pack('<Q', 16) + bytes(16)]
+    cases = []
+    for op in ('none', 'dup', 'drop', 'swap', 'flip_body', 'flip_tag', 'shorten', 'truncate_close', 'replay_later', 'oversize'):
+        for i in range(0, 3):
+            cases.append(manip_params(rng, op, i, len(hist), None))
+    lines, wires = [], []
+    for m in cases:
+        w = fl.apply_manip(m, frames, other, frames)
+        segs = fl.segment(w, cuts_for(rng, len(w), 'random'))
+        lines.append('R d %s 0 0 %d %s' % (key, len(segs), ' '.join(fl.hx(x) for x in segs)))
+        wires.append(w)
+    out = vlib.harness(binary, 'frames', lines, timeout=1500)
+    for m, w, l in zip(cases, wires, out):
+        r = fl.kv(l)
+        ids = [] if r['ids'] == '-' else [int(x) for x in r['ids'].split(',')]
+        run.count('big:' + m['op']); run.traces_validated += 1
+        run.case(('big', repr(sorted(m.items()))), m['op'] != 'none')
+        bad = fl.oracle(hist, frames, w, ids, r['end'])
+        j, _ = fl.leading_honest(frames, w)
+        if bad:
+            run.fail('C10 oracle (large messages): ' + bad, {'leg': 'big', 'manip': m, 'impl': l[:300]})
+        elif len(ids) != j:
+            run.broke('correspondence', 'big-delivery', 'delivered %d, %d leading honest frames (%r)' % (len(ids), j, m))
+
+
 def read_bump(facts_lines):
     for l in facts_lines:
         if l.startswith('b_frames_counter_advances'):
@@ -265,6 +332,9 @@ def check(run):
             run.count('corpus')
     run_unit(run, binary, jbin, sessions, cases, bump)
     nonce_leg(run, binary, sessions, bump)
+    final_message_leg(run, binary)
+    if run.tier == 'thorough':
+        big_leg(run, binary)
     import frames_e2e
     frames_e2e.run_e2e(run, binary, run.tier)
     return run.finish(search=None)     # every case evaluates the property oracle on the implementation
@@ -277,6 +347,10 @@ def replay(run, path):
     if r.get('leg') == 'unit':
         s = fl.Session(r['key'], [tuple(x) for x in r['hist0']], [tuple(x) for x in r['hist1']], tuple(r.get('start', (0, 1))))
         run_unit(run, binary, jbin, [s], [UnitCase(0, r['dir'], r['manip'], r.get('segmentation', 'whole'), r.get('mode', 'd'), r.get('recv_start'))], bump)
+    elif r.get('leg') == 'final-message':
+        final_message_leg(run, binary)
+    elif r.get('leg') == 'big':
+        big_leg(run, binary)
     elif r.get('leg') == 'nonce':
         s = fl.Session(r['key'], [tuple(x) for x in r['hist0']], [tuple(x) for x in r['hist1']])
         run_unit(run, binary, jbin, [s], [], bump)
